@@ -87,6 +87,21 @@ fn per_size<const N: usize>(ctx: &mut Ctx, legacy: bool) {
     }
 }
 
+/// creation with a refused DMA allocation at each point, both layouts (also run under C04: the device is only ever
+/// given addresses obtained from DMA allocation, in particular never the null address of a refused allocation)
+pub fn run_alloc_faults(ctx: &mut Ctx) {
+    ctx.tr.scenario("c06-alloc-faults");
+    for legacy in [false, true] {
+        for fail_at in [Some(0usize), Some(1), None] {
+            for flags in [0u8, 1, 7] {
+                case::<1>(ctx, legacy, flags, 0, false, 1024, fail_at);
+                case::<8>(ctx, legacy, flags, 1, false, 1024, fail_at);
+                case::<256>(ctx, legacy, flags, 0, false, 1024, fail_at);
+            }
+        }
+    }
+}
+
 pub fn run(ctx: &mut Ctx) {
     ctx.tr.scenario("c06-pure");
     // pure functions through the hook wrappers, dense grid around page multiples
